@@ -305,10 +305,12 @@ def analyse(ctx, f, rid, suffix=""):
                 n_auto += 1
                 ctx.ob(rid, key + suffix, True, "discharged automatically: " + auto, site=s["span"])
                 continue
-            if key in DISCHARGED:
+            # `.expect("..")` and `.unwrap()` are the same panic site (both fail on None / Err): one table entry covers either spelling
+            tkey = key if key in DISCHARGED else key.replace("::expect#", "::unwrap#")
+            if tkey in DISCHARGED:
                 n_table += 1
-                unused.discard(key)
-                ctx.ob(rid, key + suffix, True, "discharged (table): " + DISCHARGED[key], site=s["span"])
+                unused.discard(tkey)
+                ctx.ob(rid, key + suffix, True, "discharged (table): " + DISCHARGED[tkey], site=s["span"])
                 continue
             ch = " -> ".join(strip_generics(f.bodies[x].path).replace("prometheus::", "") for x in chain(parent, k)[-6:])
             det = ""
